@@ -93,3 +93,17 @@ Fixpoint fill_mask {X} (mask : list bool) (x : X) (l : list X) : list X :=
                   | [] => []
                   end
   end.
+
+(* ---- how the C01 statements are phrased ------------------------------------------------------------
+   A backward kernel that is itself a gather of the upstream gradient (bop: moveaxis / swapaxes / reshape /
+   squeeze applied to grad) is exact when its result has the operand's shape and equals the scatter of the
+   forward map at every operand position, for upstream gradients over any commutative semiring.          *)
+Definition backward_is_scatter (op bop : gather_op) : Prop :=
+  g_in bop = g_out op /\ g_out bop = g_in op /\
+  forall (A : Type) (SA : Scalar A) (LA : ScalarLaws A) (g : idx -> A) (i : idx),
+    In i (idxs (g_in op)) -> apply_op bop g i = tscatter op g i.
+
+(* <g, op x> = <backward g, x> *)
+Definition vjp_identity (op : gather_op) (b : forall (A : Type), Scalar A -> (idx -> A) -> idx -> A) : Prop :=
+  forall (A : Type) (SA : Scalar A) (LA : ScalarLaws A) (x g : idx -> A),
+    tdot (g_out op) g (tgather (g_phi op) x) = tdot (g_in op) (b A SA g) x.
